@@ -1876,6 +1876,9 @@ func (p *parser) scanCharSet(caseInsensitive, scanOnly bool) (*CharSet, error) {
 					}
 					cc.addRange(chPrev, ch)
 				}
+			} else if ch == '[' && !fTranslatedChar && !firstChar {
+				// scan-only: skip the subtracted class as a unit, as the full scan does
+				_, _ = p.scanCharSet(caseInsensitive, true)
 			}
 		} else if p.charsRight() >= 2 && p.rightChar(0) == '-' && p.rightChar(1) != ']' {
 			// this could be the start of a range
